@@ -250,3 +250,32 @@ Theorem C10_no_truncate_refuted :
       = Some (toy_tsw (s_frames g)).
 Proof. exact no_truncate_refuted. Qed.
 Print Assumptions C10_no_truncate_refuted.
+
+(* ---------------------------------------------------------------------------------------------------------
+   The playlist text as a function of (segments, stream path, token) for ALL byte strings. *)
+
+(* read the served text the way a player does (lines that are neither empty nor start with '#'): the URI lines are,
+   byte for byte, seg.uri followed by "?token=" ++ token (nothing for the empty token), one per listed segment in
+   order — for every token and stream path that has no line feed, whatever else it contains ('%', "%s", "%!", '#',
+   '?', '&', '=', blanks, non-ASCII bytes, any length); and each number so named resolves through Segment() to the
+   frames of that listed segment (round trip playlist -> fetch) *)
+Theorem C10_playlist_uri_verbatim : forall c ops tok v,
+  forallb op_wf ops = true -> no_lf (c_path c) = true -> no_lf tok = true ->
+  let s := steps c (init c) ops in
+  m3u8 c tok s = Some v ->
+  uri_lines (render v) = map (fun g => seg_uri c (s_seq g) ++ tok_suffix tok) (pl s) /\
+  forall g, In g (pl s) ->
+    fetch c (s_seq g) s = Some (if c_mem c && negb (c_copy c) then RAlias (s_buf g) (s_frames g) else RCopy (s_frames g)).
+Proof. exact playlist_uri_roundtrip. Qed.
+Print Assumptions C10_playlist_uri_verbatim.
+
+(* non-vacuity: a path and a token full of printf verbs *)
+Example C10_uri_verbatim_nonvacuous :
+  let c := set_path nv_cfg [47; 49; 48; 48; 37; 115; 112] in            (* "/100%sp" *)
+  let tok := [117; 37; 101; 37; 37; 33; 100; 38; 61; 63; 35; 32; 255] in  (* "u%e%%!d&=?# \xff" *)
+  let s := steps c (init c) (firstn 9 nv_ops) in
+  no_lf (c_path c) = true /\ no_lf tok = true /\
+  option_map (fun v => uri_lines (render v)) (m3u8 c tok s)
+    = Some (map (fun n => [47;115;116;114;101;97;109;115] ++ [47; 49; 48; 48; 37; 115; 112] ++ [47] ++ dec n ++ [46;116;115]
+                          ++ [63;116;111;107;101;110;61] ++ tok) [2; 3; 4]).
+Proof. vm_compute. repeat split; reflexivity. Qed.
